@@ -58,6 +58,7 @@ ROUTES = {
     "R3q": (["-Q3", "-Fc", "-Ffm"], "cl.as"),		# optimising client: inliner reads FOAM from the .ao
     "R6": (["-Ginterp"], "cl3.as"),			# client importing from two members of one archive
     "R6q": (["-Q3", "-Fc"], "cl3.as"),
+    "R7": (["-Ginterp"], "cl4.as"),			# archive with a long member name (ar name table)
 }
 SUBST_VALUES = ("x01", "x80", "00", "ff")
 
@@ -73,9 +74,9 @@ def subst_byte(b, how):
 
 
 # ---- valid files ----------------------------------------------------------------
-def write_world(binfo, scratch, name, text, plan_extra=()):
+def write_world(binfo, scratch, name, text, plan_extra=(), extra_opts=()):
     w = scratch.new()
-    r = worlds.compile_world(binfo, w, {name: text}, ["-Fao", "-Ffm"], [name], plan_extra=plan_extra, cpu=60)
+    r = worlds.compile_world(binfo, w, {name: text}, list(extra_opts) + ["-Fao", "-Ffm"], [name], plan_extra=plan_extra, cpu=60)
     vsim.cleanup_world(w)
     return r
 
@@ -132,6 +133,30 @@ def make_subjects(binfo, scratch, seed, tier):
                          "regions": ao_regions(ao), "trace": trace, "prog": name, "source": text})
         subjects.append({"kind": "fm", "file": base + ".fm", "data": fm, "aux": {}, "routes": ["R5"],
                          "regions": [(0, len(fm), "text")], "trace": [], "prog": name, "source": text})
+    # an object with debug positions (-Zdb): two more, optional, sections at the end
+    rdb = write_world(binfo, scratch, "hellodb.as", worlds.HELLO, extra_opts=["-Zdb"])
+    if rdb.rc == 0 and "hellodb.ao" in rdb.files:
+        ao = rdb.files["hellodb.ao"]
+        trace = [(int(e[2]), int(e[3])) for e in vsim.parse_log(rdb.log)["fs"] if e[0] == "W" and e[1] == "ao"]
+        subjects.append({"kind": "ao", "file": "hellodb.ao", "data": ao, "aux": {}, "routes": ["R1", "R2"],
+                         "regions": ao_regions(ao), "trace": trace, "prog": "hellodb.as", "source": worlds.HELLO})
+    # an archive whose member name needs the long-name table of ar
+    rl = write_world(binfo, scratch, "averyveryverylongname.as", LIB_SRC)
+    if rl.rc == 0 and "averyveryverylongname.ao" in rl.files:
+        aol = rl.files["averyveryverylongname.ao"]
+        d = scratch.new()
+        os.makedirs(d)
+        open(os.path.join(d, "averyveryverylongname.ao"), "wb").write(aol)
+        subprocess.run(["ar", "crD", "liblong.al", "averyveryverylongname.ao"], cwd=d, check=True)
+        all_ = open(os.path.join(d, "liblong.al"), "rb").read()
+        vsim.cleanup_world(d)
+        m = all_.find(b"/0 ")		# member header that refers to the name table
+        if m > 0:
+            regs = [(0, 8, "armagic"), (8, 68, "arnamehdr"), (68, m, "arnametable"), (m, m + 60, "arhdr")] + \
+                   [(lo + m + 60, hi + m + 60, "member." + nm) for lo, hi, nm in ao_regions(aol)]
+            subjects.append({"kind": "al", "file": "liblong.al", "data": all_, "aux": {"cl4.as": CLIENT % b"liblong.al"},
+                             "routes": ["R7"], "regions": regs, "trace": [], "prog": "averyveryverylongname.as", "source": LIB_SRC,
+                             "hdr_ranges": [(0, m + 60 + 165)]})
     # library / client pair, and the same library inside an archive
     r = write_world(binfo, scratch, "lx.as", LIB_SRC)
     if r.rc == 0 and "lx.ao" in r.files:
